@@ -39,9 +39,11 @@ theorem removeConsolidate_false_of {f f' g : Forest} {pu nv : Option Nat}
           | some ns => rw [hp, hn] at h; simp at h
 
 theorem addConsolidate_prev_merge {f : Forest} {node p : Nat} {a ps : Str} (next : Option Nat)
-    (hc : f.consolidation = true) (hn : f.textOf node = some a) (hp : f.textOf p = some ps) :
+    (hc : f.consolidation = true) (hn : f.textOf node = some a) (hp : f.textOf p = some ps)
+    (hne : p ≠ node) :
     f.addConsolidate node (some p) next = ((f.setValue p (.text (ps ++ a))).spliceOut node, true) := by
-  unfold addConsolidate
+  rw [addConsolidate_eq_old, selfPrev_of_ne (by simpa using hne)]
+  unfold addConsolidateOld
   simp [hc, hn, hp]
 
 /-- indextree `remove` of a leaf is `remove_subtree`. -/
@@ -164,7 +166,7 @@ theorem Gap.replace_text (g : Gap f a init fr l0 P A N r0 ps ns) (hi : f.Inv) {b
   refine ⟨((f.dropSubtree a).setValue P.handle (.text (ps ++ bs))).spliceOut b, ?_, ?_⟩
   · unfold insertAfter
     simp only [hpar, hsc1, hsr1, hnx1, hpb, hnb, hrc1, Bool.not_true, Bool.false_eq_true, if_false,
-      Bool.false_and, addConsolidate_prev_merge _ hcons1 htb1 htp1, if_true]
+      Bool.false_and, addConsolidate_prev_merge _ hcons1 htb1 htp1 (Ne.symm ra.neP), if_true]
   · -- the valid forest in which `b` has been merged into `P`
     have htp : f.textOf P.handle = some ps := by
       have lcP : Loc f.roots P.handle (init ++ [fr]) l0 P (A :: N :: r0) := ⟨by rw [g.loc.eq]; simp, rfl⟩
